@@ -101,8 +101,9 @@ pub mod vx_canon {
     pub uninterp spec fn ncomp(s: Seq<char>) -> int;
     /// a name as the graph's name -> id map expects it (C13: every path reaches the map through canonicalisation)
     pub open spec fn is_canon(s: Seq<char>) -> bool { canon(s) == s }
-    /// ASSUMED here: canonicalisation is idempotent.  Unit canon proves the code equal to the byte-level spec function
-    /// cn::canon for all inputs and checks idempotence of that function exhaustively up to a length bound (by compute).
+    /// Canonicalisation is idempotent.  Unit canon proves the code equal to the byte-level spec function cn::canon for all
+    /// inputs and proves cn::lemma_canon_idempotent for that function; this char-level statement is its image under the
+    /// (trusted, uninterpreted) utf-8 string model.
     pub broadcast axiom fn ax_canon_idem(s: Seq<char>)
         ensures #[trigger] canon(canon(s)) == canon(s);
     }
